@@ -49,7 +49,13 @@ where
   type Unsub = ();
 
   fn actual_subscribe(self, mut observer: O) -> Self::Unsub {
-    self.0.into_iter().for_each(|v| observer.next(v));
+    for v in self.0.into_iter() {
+      // the subscriber ended the stream early: stop pulling items for it
+      if observer.is_finished() {
+        break;
+      }
+      observer.next(v);
+    }
     observer.complete();
   }
 }
